@@ -414,6 +414,69 @@ func packenvFailThen(c *Ctx, op string) {
 	c.Distinct(op)
 }
 
+// packenvCancel: the caller's context is cancelled at its k-th poll, for every k a pack makes (plus a few): the pack
+// answers with an error, or with the id it always gives — never with another id. Recipe: "packenv-cancel <tar|zip>".
+func packenvCancel(c *Ctx, op string) {
+	fmtName := strings.Fields(op)[1]
+	caseCounter++
+	base := filepath.Join(c.Work, fmt.Sprintf("pcn%d", caseCounter))
+	defer rmrf(base)
+	src, wh := filepath.Join(base, "src"), filepath.Join(base, "wh")
+	os.MkdirAll(filepath.Join(src, "d"), 0755)
+	os.MkdirAll(wh, 0755)
+	os.Setenv("RIO_CACHE", filepath.Join(base, "cache"))
+	x := uint32(11)
+	for i, n := range []int{5, 70000, 0, 300000} { // the last entry of the walk is a regular file with a long body
+		b := make([]byte, n)
+		for j := range b {
+			x = x*1664525 + 1013904223
+			b[j] = byte(x >> 24)
+		}
+		os.WriteFile(filepath.Join(src, []string{"a", "d/b", "d/c", "zz-last"}[i]), b, 0644)
+	}
+	pf := api.MustParseFilesetPackFilter(losslessPackStr)
+	fn := funcsFor(fmtName)
+	pack := func(ctx context.Context, tgt api.WarehouseLocation) string {
+		id, err, pan := safeCall(func() (api.WareID, error) {
+			return fn.pack(ctx, api.PackType(fmtName), src, pf, tgt, rio.Monitor{})
+		})
+		return resTok(id, err, pan)
+	}
+	before := pack(context.Background(), "")
+	c.EmitR(op, "skip", "skip")
+	if !strings.HasPrefix(before, "ok ") {
+		return
+	}
+	// how many polls does an undisturbed pack make?
+	probe := &countdownCtx{Context: context.Background(), left: 1 << 30, done: make(chan struct{})}
+	pack(probe, "")
+	polls := 1<<30 - probe.left
+	okAfter, errs := 0, 0
+	for k := 1; k <= polls+3; k++ {
+		cc := &countdownCtx{Context: context.Background(), left: k, done: make(chan struct{})}
+		tgt := api.WarehouseLocation("")
+		if k%2 == 0 {
+			tgt = whAddr("ca", wh)
+		}
+		r := pack(cc, tgt)
+		switch {
+		case r == "panic":
+			c.PropFail("pack-env", fmt.Sprintf("a pack (%s) cancelled at its poll %d panicked", fmtName, k), op)
+			return
+		case strings.HasPrefix(r, "ok ") && r != before:
+			c.PropFail("pack-env", fmt.Sprintf("a pack (%s) cancelled at its poll %d of %d answered %s without an error; undisturbed the same tree packs to %s", fmtName, k, polls, r, before), op)
+			return
+		case strings.HasPrefix(r, "ok "):
+			okAfter++
+		default:
+			errs++
+		}
+	}
+	c.H(fmt.Sprintf("cancel:%s:polls=%d", fmtName, (polls+4)/5*5))
+	c.Extra["cancel_"+fmtName] = fmt.Sprintf("polls=%d errors=%d same-id=%d", polls, errs, okAfter)
+	c.Distinct(op)
+}
+
 func packenvEngine(c *Ctx) {
 	if ls := replayLines(); ls != nil {
 		for _, op := range ls {
@@ -421,6 +484,8 @@ func packenvEngine(c *Ctx) {
 				packenvBigDir(c, op)
 			} else if strings.HasPrefix(op, "packenv-failthen ") {
 				packenvFailThen(c, op)
+			} else if strings.HasPrefix(op, "packenv-cancel ") {
+				packenvCancel(c, op)
 			} else if strings.HasPrefix(op, "packenv ") && !strings.Contains(op, " #") {
 				packenvExec(c, op)
 			}
@@ -431,6 +496,8 @@ func packenvEngine(c *Ctx) {
 	if c.Tier == "thorough" {
 		packenvBigDir(c, "packenv-bigdir 70000")
 	}
+	packenvCancel(c, "packenv-cancel tar")
+	packenvCancel(c, "packenv-cancel zip")
 	for _, fm := range []string{"tar", "zip"} {
 		for _, at := range []int{0, 2, 5, 9} {
 			packenvFailThen(c, fmt.Sprintf("packenv-failthen %s %d", fm, at))
